@@ -228,3 +228,24 @@ pub fn tail(log: &[String], n: usize) -> Vec<String> {
     let k = log.len().saturating_sub(n);
     log[k..].to_vec()
 }
+
+
+/// Exit status of a child process, or None if it did not finish within `secs` (it is killed).
+pub fn status_with_timeout(c: &mut std::process::Command, secs: u64) -> Result<Option<i32>, String> {
+    let mut child = c.spawn().map_err(|e| format!("cannot start process: {e}"))?;
+    let t0 = std::time::Instant::now();
+    loop {
+        match child.try_wait() {
+            Ok(Some(st)) => return Ok(Some(st.code().unwrap_or(-1))),
+            Ok(None) => {
+                if t0.elapsed().as_secs() >= secs {
+                    let _ = child.kill();
+                    let _ = child.wait();
+                    return Ok(None);
+                }
+                std::thread::sleep(std::time::Duration::from_millis(5));
+            }
+            Err(e) => return Err(format!("wait failed: {e}")),
+        }
+    }
+}
